@@ -117,6 +117,11 @@ func (p *Program) Ret(action Action) {
 	p.instructions = append(p.instructions, bpf.RetConstant{Val: uint32(action)})
 }
 
+// LdNr inserts an instruction to load the syscall number.
+func (p *Program) LdNr() {
+	p.instructions = append(p.instructions, bpf.LoadAbsolute{Off: syscallNumOffset, Size: sizeOfUint32})
+}
+
 // LdHi inserts an instruction to load the most significant 32-bit of the 64-bit argument.
 func (p *Program) LdHi(arg uint32) {
 	offset := argumentOffset + sizeOfUint64*arg
